@@ -272,6 +272,18 @@ static void judge(Ctx& ctx, const Case& c, bool from_replay) {
           char pb[160]; snprintf(pb, sizeof pb, "(%lld%+lld/256, %lld%+lld/256)", (long long)q.x, (long long)(ps.x - q.x * SC), (long long)q.y, (long long)(ps.y - q.y * SC));
           std::vector<std::string> tags = { ex == EX_IN ? "not_covered" : "covered_beyond", small ? "small_delta" : dirtag, kJtName[jt],
             at_input_vertex ? "spike_to_input_vertex" : (small_excess ? "not_at_input_vertex_excess_le_1.5" : "not_at_input_vertex_excess_gt_1.5") };
+          // classifier for the larger excesses: q is the tip of a thin wedge of the result (its two edges meet at a small
+          // angle theta, e.g. the offset of an outer edge meeting the offset of a hole at a shallow angle); moving either
+          // edge by a rounding error of one unit moves the tip by 1/sin(theta). Accepted into this class only if the point is
+          // inside the band widened by 1.5/sin(theta) and theta is below 15 degrees.
+          if (!at_input_vertex && !small_excess && al > 0 && bl > 0) {
+            ld cr = fabsl(ax * by - ay * bx) / (al * bl), dt = (ax * bx + ay * by) / (al * bl);
+            if (dt > 0 && cr > 0 && cr < 0.2588L) {
+              int W3; bool on3; ld sd3;
+              ld widen = std::min<ld>(1.5L / cr, 200.0L);
+              if (eval_point(Ps, Rs, ps, (ld)SC, widen, W3, on3, sd3) == EX_NONE) tags.push_back("wedge_tip_excess_le_1.5_over_sine_of_the_tip_angle");
+            }
+          }
           ctx.violation("C06.boundary", tags, c, std::string("next to result vertex ") + ptstr(q) + (at_input_vertex ? " (= an input vertex)" : "") + " the point " + pb +
             " has signed distance " + ldstr(sd) + " to the input, delta " + ldstr(delta) + " t " + ldstr(t) + " k " + ldstr(k) + ": must " + (ex == EX_IN ? "" : "not ") +
             "be covered, result winding " + std::to_string(W) + ", join " + kJtName[jt] + " ml " + ldstr(ml) + " arc_tol " + ldstr(at) +
